@@ -23,7 +23,7 @@ def main(argv):
         else:
             names.append(a)
     sd = os.path.join(VERIF, 'seeded')
-    names = names or sorted(d for d in os.listdir(sd) if os.path.isdir(os.path.join(sd, d)))
+    names = names or sorted(d for d in os.listdir(sd) if os.path.isdir(os.path.join(sd, d)) and not d.startswith('_'))
     res_path = os.path.join(sd, 'RESULTS.json')
     results = json.load(open(res_path)) if os.path.exists(res_path) else {}
     for name in names:
